@@ -216,9 +216,9 @@ def run(model: RepoModel, rep, tier: str):
                           "workspace from `dirs`: when the workspace lies inside an input directory (`cd proj; lian ... -f .`) the walk "
                           "descends into the copy it is making and recurses until ENAMETOOLONG")
     key = f"{PREP}::WorkspaceBuilder.copytree_with_extension::symlinked sources skipped"
-    first = ct.node.body[0] if ct.node.body else None
-    while first is not None and isinstance(first, ast.Expr) and isinstance(first.value, ast.Constant):
-        first = ct.node.body[1] if len(ct.node.body) > 1 else None
+    from ..model import effective_body
+    _eb = effective_body(ct.node)
+    first = _eb[0] if _eb else None
     ok = isinstance(first, ast.If) and isinstance(first.test, ast.Call) and call_name(first.test) == "os.path.islink" \
         and any(isinstance(b, ast.Return) for b in first.body)
     (rep.holds if ok else rep.violation)("C18.R4", key, PREP, ct.node.lineno,
